@@ -15,7 +15,7 @@ variable {K : Type} [CommRing K] [Algebra ℚ K]
 /-- the re-evaluation of a tree preserves its (scalar) meaning — the statement of C02 / C05 for
     the constructors involved; proved below for the operator-free fragment -/
 def ReevalSound (S : DRing K) (d : Nat) (lg : Bool) (t : E) : Prop :=
-  ∀ t', reeval d t = .ok t' → denG S d lg t' 0 0 = denG S d lg t 0 0
+  ∀ t', reeval2 d t = .ok t' → denG S d lg t' 0 0 = denG S d lg t 0 0
 
 /-- the sums `l + r` and the multiples `α·l` substituted by the test -/
 def sumVals (args : List E) : List E :=
@@ -47,11 +47,13 @@ theorem zip_keys_fn (args vals : List E) (h : ∀ a ∈ args, isFn a = true) :
 /-- on the operator-free fragment re-evaluation is always sound -/
 theorem reevalSound_opfree (S : DRing K) (d : Nat) (lg : Bool) (args vals : List E) (e : E)
     (hargs : ∀ a ∈ args, isFn a = true) (hvals : ∀ v ∈ vals, OpFree v = true) (he : OpFree e = true) :
-    ReevalSound S d lg (subst (args.zip vals) e) ∧ ∃ t', reeval d (subst (args.zip vals) e) = .ok t' := by
+    ReevalSound S d lg (subst (args.zip vals) e) ∧ ∃ t', reeval2 d (subst (args.zip vals) e) = .ok t' := by
   have ho := subst_opfree (args.zip vals) (zip_keys_fn args vals hargs)
     (fun p hp => hvals _ (List.of_mem_zip hp).2) e he
-  obtain ⟨t', h1, _, h3⟩ := reeval_opfree S d lg _ ho
-  exact ⟨fun t'' h => by rw [h1] at h; injection h with h; subst h; exact h3 0 0, t', h1⟩
+  obtain ⟨t1, h1, ho1, h3⟩ := reeval_opfree S d lg _ ho
+  obtain ⟨t', h1', _, h3'⟩ := reeval_opfree S d lg t1 ho1
+  have h2 : reeval2 d (subst (args.zip vals) e) = .ok t' := by simp [reeval2, h1, h1']
+  exact ⟨fun t'' h => by rw [h2] at h; injection h with h; subst h; rw [h3' 0 0, h3 0 0], t', h2⟩
 
 theorem sumVals_opfree (args : List E) (h : ∀ a ∈ args, isFn a = true) : ∀ v ∈ sumVals args, OpFree v = true := by
   intro v hv
@@ -130,10 +132,10 @@ theorem reject_of_refutation (d : Nat) (u : String) (k : Kind) (dom : String) (e
     have s2 := (reevalSound_opfree (refuteRing L) d false [sf u k] (freshList "l#" [sf u k]) e hargs (freshList_opfree _ _ hargs) he).1
     unfold homogeneous at hh
     simp only [substEval] at hh
-    cases h1 : reeval d (subst ([sf u k].zip (mulVals [sf u k])) e) with
+    cases h1 : reeval2 d (subst ([sf u k].zip (mulVals [sf u k])) e) with
     | error x => simp [mulVals] at h1; simp [h1] at hh
     | ok n =>
-      cases h2 : reeval d (subst ([sf u k].zip (freshList "l#" [sf u k])) e) with
+      cases h2 : reeval2 d (subst ([sf u k].zip (freshList "l#" [sf u k])) e) with
       | error x => simp [mulVals] at h1; simp [h1, h2] at hh
       | ok l =>
         have h1' := h1
